@@ -152,6 +152,7 @@ func main() {
 	budget := fs.Int("budget", 0, "override per-worker wall budget (s)")
 	noEvidence := fs.Bool("no-evidence", false, "do not write the evidence file")
 	keep := fs.Bool("keep", false, "keep the scratch directory")
+	race := fs.Bool("race", false, "diagnostic: build the harness with the race detector (reports of races in harness or goProbe code end the run with exit 2 and the report; never a violation)")
 	_ = fs.Parse(os.Args[2:])
 	verifDir, _ := os.Getwd()
 	if _, err := os.Stat(filepath.Join(verifDir, "MANIFEST.json")); err != nil {
@@ -200,7 +201,11 @@ func main() {
 	bins := map[string]string{}
 	var rw *rewrite.Result
 	for _, e := range engs {
-		b, w := build(verifDir, scratch, e, mut, nil, "-"+e.Name)
+		var extra []string
+		if *race {
+			extra = []string{"-race"}
+		}
+		b, w := build(verifDir, scratch, e, mut, extra, "-"+e.Name)
 		bins[e.Name] = b
 		if rw == nil {
 			rw = w
@@ -276,8 +281,17 @@ func build(verifDir, scratch string, eng *engine, mut *mutant, extraTags []strin
 		die("rewrite of /repo failed (unmodelled call or parse error): %v", err)
 	}
 	bin := filepath.Join(scratch, eng.Name+suffix+".test")
-	tags := append([]string{"verif"}, extraTags...)
-	args := []string{"test", "-c", "-tags", strings.Join(tags, ","), "-overlay", rw.OverlayPath, "-o", bin}
+	tags := []string{"verif"}
+	var flags []string
+	for _, x := range extraTags {
+		if strings.HasPrefix(x, "-") {
+			flags = append(flags, x) // a build flag (-race), not a tag
+		} else {
+			tags = append(tags, x)
+		}
+	}
+	args := append([]string{"test", "-c"}, flags...)
+	args = append(args, "-tags", strings.Join(tags, ","), "-overlay", rw.OverlayPath, "-o", bin)
 	if repo != "/repo" {
 		args = append(args, "-modfile", altModfile(verifDir, scratch))
 	}
